@@ -3,11 +3,11 @@
 
 pub const ALPHABET: &[u8; 64] = b"ABCDEFGHIJKLMNOPQRSTUVWXYZabcdefghijklmnopqrstuvwxyz0123456789-_";
 
-/// The 66-symbol alphabet of mutation family 2: base64url plus '.' and '='.
+/// The alphabet of the text-edit mutation families: base64url plus '.', '=' and the white-space
+/// characters a transport might add (blank, LF, CR, TAB) - 70 symbols.
 pub fn token_alphabet() -> Vec<u8> {
     let mut v = ALPHABET.to_vec();
-    v.push(b'.');
-    v.push(b'=');
+    v.extend_from_slice(b".= \n\r\t");
     v
 }
 
